@@ -127,22 +127,39 @@ def float_out_buffers(ctx, chk, q=None, rule="R13.9"):
     fns = [fi] + [f for f in fi.module.functions.values() if f is not fi]
     FLOATS = {"float", "np.float64", "numpy.float64", "np.double", "np.float_", "np.longdouble", "'float64'", "'float'", '"float64"', '"float"', "'f8'", "'d'"}
 
-    def float_buffer(e, depth=0, fi=fi):
-        if isinstance(e, ast.Name) and depth < 3:
+    def float_buffer(e, depth=0, fi=fi, extra_kw=()):
+        """True: a float buffer; False: a buffer that takes an integer dtype from its template / its dtype argument; None: not resolved."""
+        if isinstance(e, ast.Name) and depth < 4:
             # the binding that reaches this use: the last assignment of the name above it (`p = np.full_like(...); p = np.divide(..., out=p)`)
             binds = [n for n in ast.walk(fi.node) if isinstance(n, ast.Assign) and len(n.targets) == 1 and isinstance(n.targets[0], ast.Name) and n.targets[0].id == e.id
                      and n.lineno < getattr(e, "lineno", 10 ** 9)]
             if not binds:
-                return False
+                return None
             last = max(binds, key=lambda n: n.lineno)
             return float_buffer(last.value, depth + 1, fi)
         if isinstance(e, ast.Call) and isinstance(e.func, ast.Attribute) and isinstance(e.func.value, ast.Name) and e.func.value.id in ("np", "numpy"):
-            dt = next((ast.unparse(k.value) for k in e.keywords if k.arg == "dtype"), None)
+            kws = {k.arg: k.value for k in list(extra_kw) + list(e.keywords) if k.arg}
+            dt = ast.unparse(kws["dtype"]) if "dtype" in kws else None
             if e.func.attr in ("zeros", "ones", "empty", "full"):
                 return dt is None or dt in FLOATS
             if e.func.attr in ("zeros_like", "ones_like", "empty_like", "full_like"):
                 return dt in FLOATS
-        return False
+            return None
+        if isinstance(e, ast.Call) and isinstance(e.func, ast.Name) and depth < 4:
+            if e.func.id in fi.module.functions:
+                # a buffer made by a helper of the same module: every value the helper returns must be a float buffer
+                hf = fi.module.functions[e.func.id]
+                rets = [r.value for r in ast.walk(hf.node) if isinstance(r, ast.Return) and r.value is not None]
+                rs = [float_buffer(r, depth + 1, hf) for r in rets]
+                if not rs or any(r is None for r in rs):
+                    return False if any(r is False for r in rs) else None
+                return all(rs)
+            tgt = fi.module.assigns.get(e.func.id)
+            if isinstance(tgt, ast.Call) and ast.unparse(tgt.func) in ("partial", "functools.partial") and tgt.args and not tgt.args[1:]:
+                # NAME = partial(np.full_like, fill_value=..., dtype=float): the call with the bound keywords
+                call = ast.Call(func=tgt.args[0], args=list(e.args), keywords=list(e.keywords))
+                return float_buffer(ast.copy_location(call, e), depth + 1, fi, extra_kw=list(tgt.keywords))
+        return None
     n = 0
     for fj, c in [(fj, x) for fj in fns for x in ast.walk(fj.node) if isinstance(x, ast.Call)]:
         src = ast.unparse(c.func)
@@ -153,8 +170,11 @@ def float_out_buffers(ctx, chk, q=None, rule="R13.9"):
             continue
         n += 1
         inst = "%s:divide@%s" % (fj.name, ast.unparse(out)[:40])
-        if float_buffer(out, 0, fj):
+        fb = float_buffer(out, 0, fj)
+        if fb:
             chk.hold(rule, inst, "the quotient is written into a float buffer", nontrivial=False)
+        elif fb is None:
+            chk.unknown(rule, "%s: where the buffer out=%s comes from is not resolved (%s:%d)" % (inst, ast.unparse(out)[:60], fj.module.relpath, c.lineno))
         else:
             chk.violation(rule, fj.qualname, inst, "np.divide(..., out=%s): the buffer takes the dtype of its template" % ast.unparse(out)[:80],
                           "a float buffer (dtype=float): integer-valued replicates are inside the quantifier and numpy refuses to cast the float quotient into an integer buffer",
